@@ -181,8 +181,22 @@ def generate(tier):
                        '        for (j, (b, tb)) in vs.iter().enumerate() {\n'
                        '            let eq = trace_of(a).unwrap() == trace_of(b).unwrap();\n'
                        '            r.ck(eq == (ta == tb), 1 + (ta == tb) as u64, &|| format!("values #{} and #{}: equal hash input {}, equal values {}", i, j, eq, ta == tb));\n        }\n    }\n')
+    cases += zoo_cases('C05|zm', 'Hash', 'Debug, Clone, PartialEq', 'Debug, Clone, PartialEq, Hash',
+                       '    for (i, (a, ta)) in vs.iter().enumerate() {\n'
+                       '        let same_as_std = trace_of(a).unwrap() == trace_of(ta).unwrap();\n'
+                       '        if !IS_ENUM { r.ck(same_as_std, 0, &|| format!("value #{}: feeds {:?}, #[derive(Hash)] feeds {:?}", i, trace_of(a).unwrap(), trace_of(ta).unwrap())); }\n'
+                       '        for (j, (b, tb)) in vs.iter().enumerate() {\n'
+                       '            let eq = trace_of(a).unwrap() == trace_of(b).unwrap();\n'
+                       '            r.ck(eq == (ta == tb), 1 + (ta == tb) as u64, &|| format!("values #{} and #{}: equal hash input {}, equal values {}", i, j, eq, ta == tb));\n        }\n    }\n', z_attr='Hash(method(zoo_m_hash))')
+    cases += zoo_cases('C05|zi', 'Hash', 'Debug, Clone, PartialEq', 'Debug, Clone, PartialEq, Hash',
+                       '    for (i, (a, ta)) in vs.iter().enumerate() {\n'
+                       '        let same_as_std = trace_of(a).unwrap() == trace_of(ta).unwrap();\n'
+                       '        if !IS_ENUM { r.ck(same_as_std, 0, &|| format!("value #{}: feeds {:?}, #[derive(Hash)] feeds {:?}", i, trace_of(a).unwrap(), trace_of(ta).unwrap())); }\n'
+                       '        for (j, (b, tb)) in vs.iter().enumerate() {\n'
+                       '            let eq = trace_of(a).unwrap() == trace_of(b).unwrap();\n'
+                       '            r.ck(eq == (ta == tb), 1 + (ta == tb) as u64, &|| format!("values #{} and #{}: equal hash input {}, equal values {}", i, j, eq, ta == tb));\n        }\n    }\n', ign_attr='Hash(ignore)')
     for c in cases:
-        if c.key.startswith('C05|zoo|'):
+        if '|zoo|' in c.key:
             c.body = c.body.replace('pub fn check(', 'const IS_ENUM: bool = %s;\npub fn check(' % ('true' if c.key.endswith('|en') else 'false'))
     from .common import rawify
     for c in [x for x in cases if x.key.startswith('C05|H|s:n2|') or x.key.startswith('C05|HP|e:n2,n1|')]:
